@@ -149,3 +149,14 @@ Print Assumptions C10_announcement_asks_exactly_lifetime.
 Theorem C10_pubsub_loop_is_handler : forall h st, prun st h = drun st (pmsgs h).
 Proof. exact pubsub_loop_is_handler. Qed.
 Print Assumptions C10_pubsub_loop_is_handler.
+
+(* ---------------- publication failures (open known finding, witness in Refuted.v) ---------------- *)
+(* full statement: whatever Redis does with the PUBLISH, a registration usable by the station is known to the detector *)
+Definition C10_usable_implies_announced_full_statement : Prop :=
+  forall publish_ok, fst (register_outcome publish_ok) = true -> snd (register_outcome publish_ok) = true.
+(* proved part: it holds whenever the publication succeeds (all other theorems of this file are about that case) *)
+Theorem C10_usable_implies_announced_partial :
+  forall publish_ok, publish_ok = true ->
+  fst (register_outcome publish_ok) = true -> snd (register_outcome publish_ok) = true.
+Proof. exact usable_implies_announced_partial. Qed.
+Print Assumptions C10_usable_implies_announced_partial.
